@@ -567,7 +567,17 @@ Outcome WSession::call(const Op &op) {
         // op.c == -1 on an empty value: it has no storage, the caller passes a NULL pointer with length 0 (an empty std::vector's data())
         case W_STRING_LEN: { const uint8_t *src = alias_src(op.b, hdr_of(op.b.size())); if (!src) { mkarg(op.b, false); src = arg.p; } if (op.c == -1 && op.b.empty()) { src = nullptr; bump(cnt, "probe.write_empty_value_from_null_pointer"); } if (op.a > 0) bump(cnt, "probe.write_length_beyond_format_limit"); LIB(o.ret = binson_write_string_with_len(w, (const char *)src, op.b.size() + (op.a > 0 ? (size_t)op.a * 0x80000000ULL : 0))); break; }
         case W_BYTES: { const uint8_t *src = alias_src(op.b, hdr_of(op.b.size())); if (!src) { mkarg(op.b, false); src = arg.p; } if (op.c == -1 && op.b.empty()) { src = nullptr; bump(cnt, "probe.write_empty_value_from_null_pointer"); } if (op.a > 0) bump(cnt, "probe.write_length_beyond_format_limit"); LIB(o.ret = binson_write_bytes(w, src, op.b.size() + (op.a > 0 ? (size_t)op.a * 0x80000000ULL : 0))); break; }
-        case W_RAW: { const uint8_t *src = alias_src(op.b, 0); if (!src) { mkarg(op.b, false); src = arg.p; } LIB(o.ret = binson_write_raw(w, src, op.b.size())); break; }
+        case W_RAW: {
+            if (op.c == -2) {
+                // the caller appends a copy of the first op.a bytes of its own output: the source IS the start of the writer's buffer
+                size_t n = (size_t)std::max<int64_t>(op.a, 0);       // (the engine passes the length the reference decided on)
+                const uint8_t *src;
+                if (dblk.p && n <= cap) { src = dblk.p; bump(cnt, "probe.write_source_is_start_of_destination"); }
+                else { mkarg(Bytes(n, 0x11), false); src = arg.p; }        // (the output did not fit: the writer is in error and stores nothing anyway)
+                LIB(o.ret = binson_write_raw(w, src, n));
+                break;
+            }
+            const uint8_t *src = alias_src(op.b, 0); if (!src) { mkarg(op.b, false); src = arg.p; } LIB(o.ret = binson_write_raw(w, src, op.b.size())); break; }
         case W_VERIFY:
             if (err() != 0 || counter() > cap) { o.skipped = true; break; }
             LIB(o.ret = binson_writer_verify(w)); break;
